@@ -58,7 +58,7 @@ def render(c):
     fy, fx = c['shape']
     f = np.zeros((fy, fx), dtype=np.float32)
     for p, b in zip(c['pos'], c['bright']):
-        f += b * masks.circular(centerX=p[1], centerY=p[0], imageSizeX=fx, imageSizeY=fy, radius=c['radius'], antialiased=True).astype(np.float32)
+        f += b * cl.render_disk(p[0], p[1], fy, fx, c['radius'], True).astype(np.float32)
     return f
 
 
